@@ -95,13 +95,13 @@ PROPS["C17"] = dict(
     modules=["FjallModel.Props.C17"],
     theorems=["Fjall.Version.c17_version_accepts_iff", "Fjall.Version.c17_refused_open_writes_nothing",
               "Fjall.Version.c17_locked_refuses", "Fjall.Version.c17_open_ok_only_when_free",
-              "Fjall.Version.c17_unlocked_after_last_drop", "Fjall.Version.c17_counterexample_marker_absent"],
+              "Fjall.Version.c17_unlocked_after_last_drop", "Fjall.Version.c17_marker_absent_refused"],
     statements={
         "c17_version_accepts_iff": "forall marker bytes: checkVersion bytes = ok <-> bytes starts with 'F' 'J' 'L' 0x03",
         "c17_refused_open_writes_nothing": "on a directory with a marker, a refused open (wrong/unknown version, or locked) leaves the directory state unchanged",
         "c17_locked_refuses": "while >= 1 handle is alive every open attempt is refused and changes nothing",
         "c17_open_ok_only_when_free": "an open succeeds only from 0 live handles and leaves exactly 1",
-        "c17_counterexample_marker_absent": "marker absent and 0.jnl absent: the create path succeeds and writes (finding F12)",
+        "c17_marker_absent_refused": "a directory that holds keyspaces but no marker is refused with invalid-version and left untouched, whatever journals it holds (repaired, F12)",
     },
     engines=[dict(bin="lockver", cases_quick=240, cases_thorough=4000, profiles=["release"], shards=8)],
     rule="even case seeds: marker file contents (1-byte edits, truncations, extensions, random bytes, other versions) on a real database "
